@@ -15,7 +15,7 @@ same current space.  z3 decides for ALL values of the unknown integrals / voltag
  (c)  the far field of D' with currents I' equals that of D with I = C^T I'.
 
 (a)-(b) give equal feed impedances and currents "up to the sign implied by the direction".  The
-near-field clause is decided under C04 (per-half assembly).  A structural difference is replayed by
+near field of D' with I' equals that of D with C^T I' (numerical integrals concrete, currents symbolic).  A structural difference is replayed by
 the property's own sentence: both descriptions are solved on the real code for a feed on every
 common pulse and compared within 5e-4 (scaled with the condition number).
 Outside: splitting a straight wire into collinear pieces (different kernel shortcuts, numeric).
@@ -213,6 +213,16 @@ def replay_sentence(mm, gname, nmul, perm, rev):
             return ('C06:impedance:%s' % ('ground' if gnd else 'free'),
                     '%s (x%d; %s), feed on pulse %d: impedance %r vs %r' % (gname, nmul, vn, i + 1, z0, z1),
                     dict(kind='sentence', geometry=gname, perm=list(perm), rev=list(rev)))
+        xnf = np.array([1.3, -0.8, 2.5])
+        nf = []
+        for m in (m0, m1):
+            m.compute_near_field(xnf, np.ones(3), np.ones(3, dtype=int))
+            nf.append(np.concatenate([m.e_field[0], m.h_field[0]]))
+        if np.abs(nf[0][:3] - nf[1][:3]).max() > tol * np.abs(nf[0][:3]).max() or np.abs(nf[0][3:] - nf[1][3:]).max() > tol * np.abs(nf[0][3:]).max():
+            return ('C06:near-field:%s' % ('ground' if gnd else 'free'),
+                    '%s (x%d; %s), feed on pulse %d: near field at %s is E %s / %s in the two descriptions'
+                    % (gname, nmul, vn, i + 1, [float(v) for v in xnf], np.array2string(nf[0][:3], precision=4), np.array2string(nf[1][:3], precision=4)),
+                    dict(kind='sentence', geometry=gname, perm=list(perm), rev=list(rev)))
         m0.compute_far_field(zen, azi)
         m1.compute_far_field(zen, azi)
         e0 = np.stack([m0.far_field.e_theta, m0.far_field.e_phi])
@@ -296,7 +306,66 @@ def rhs_far(ck, sh, mm, gname, chunk, nchunks):
 
         def replay(conc, gn, out, perm=perm, rev=rev):
             return replay_sentence(mm, gname, 1, perm, rev)
-        prove_paths(ck, 'rhs-far-' + vname, fn, goals, replay, max_paths=16, fork_policy='assume', twin_timeout_ms=1000)
+        prove_paths(ck, 'rhs-far-' + vname, fn, goals, replay, max_paths=16, fork_policy='assume', twin_timeout_ms=1000, prefer_true=('compute_far_field',))
+
+
+def near_rel(ck, sh, mm, gname):
+    """Near field of D' (wires reversed in every combination) with currents I' = near field of D with C^T I', all six
+    components, for all currents (the numerical integrals are concrete here: linear forms in the currents, LRA)."""
+    from symx import poly
+    M = sh.mininec
+    objs, gnd = catalogue.spec(gname)
+    nw = len(objs)
+    x = np.array([1.3, -0.8, 2.5])
+    for rev in itertools.product((0, 1), repeat=nw):
+        if not any(rev):
+            continue
+        perm = tuple(range(nw))
+
+        def fn(rev=rev):
+            m0 = variant(M, gname, 1, list(range(nw)), [0] * nw)
+            m1 = variant(M, gname, 1, perm, rev)
+            C = basis_change(m0, m1)
+            if C is None:
+                return dict(inputs={}, C=None)
+            n0, n1 = len(m0.pulses), len(m1.pulses)
+            I1 = _box_currents(n1, 1.0)
+            I0 = []
+            for i in range(n0):
+                acc = SC(0.0, 0.0)
+                for j in np.nonzero(C[:, i])[0]:
+                    acc = acc + I1[j] * int(C[j][i])
+                I0.append(acc)
+            _set_currents(m0, I0)
+            _set_currents(m1, I1)
+            m0.power = m1.power = 1.0
+            nfs = []
+            with symx.object_arrays():
+                for m in (m0, m1):
+                    m.compute_near_field(x, np.ones(3), np.ones(3, dtype=int))
+                    nfs.append(list(m.e_field[0]) + list(m.h_field[0]))
+            return dict(inputs=dict(I=I1), C=C, nfs=nfs)
+
+        def goals(o):
+            if o['C'] is None:
+                return [("the pulses of D' span the same current space as those of D", z3.BoolVal(False))]
+            g = []
+            for k_, (a, b) in enumerate(zip(o['nfs'][0], o['nfs'][1])):
+                a, b = SC.lift(a), SC.lift(b)
+                d = a - b
+                if d.dr is not None:
+                    raise symx.HarnessError('near field with a denominator')
+                tot = Fraction(0)
+                for part in (a.nr, a.ni):
+                    tot += sum(abs(v) for v in poly.expand(part).values())
+                tol = core.RV(tot * Fraction(1, 10 ** 8) + Fraction(1, 10 ** 30))
+                g.append(("near field %s_%s of D' with I' = that of D with C^T I'" % ('EH'[k_ // 3], 'xyz'[k_ % 3]),
+                          z3.And(d.nr <= tol, d.nr >= -tol, d.ni <= tol, d.ni >= -tol)))
+            return g
+
+        def replay(conc, gn, out, rev=rev):
+            return replay_sentence(mm, gname, 1, perm, rev)
+        prove_paths(ck, 'near-%s-rev%s' % (gname, ''.join(map(str, rev))), fn, goals, replay, max_paths=2)
 
 
 def main(args):
@@ -308,11 +377,13 @@ def main(args):
             parts += [('matrix', (g, 1, c, nch)) for c in range(nch)]
         for g in ('G2', 'G6', 'G9'):
             parts += [('rhs_far', (g, c, 2)) for c in range(2)]
+        parts += [('near_rel', (g,)) for g in ('G2', 'G3')]
     else:
         for g, nch in (('G2', 2), ('G4', 2), ('G5', 12), ('G6', 12), ('G9', 2), ('G10', 12), ('G16', 2), ('G8', 1)):
             parts += [('matrix', (g, 2 if nch <= 2 else 1, c, nch)) for c in range(nch)]
         for g, nch in (('G2', 1), ('G5', 6), ('G6', 6), ('G9', 1), ('G10', 6), ('G16', 1)):
             parts += [('rhs_far', (g, c, nch)) for c in range(nch)]
+        parts += [('near_rel', (g,)) for g in ('G2', 'G3', 'G4', 'G5', 'G8', 'G9')]
     run_parallel(ck, 'checks.c06', parts)
     ck.assumptions += [
         'structures: catalogue members G2/G4 (two wires, different radii and segment lengths), G5 (T), G6 (star on a first end), G8/G9/G10/G16 '
